@@ -175,6 +175,19 @@ def gen_case(rng):
             t = ("call", rng.choice(["reverse", "length", "to_string"]), [t])
         return t, d
     if f == "contains":
+        if r < 0.10:
+            # numbers are contained BY VALUE: an integer finds the float of the same value and the other way round (well-separated numbers only:
+            # the tolerance band of == is C10's subject)
+            def num(k, asfloat):
+                return E.Num(G.f64_bits(float(k))) if asfloat else E.Num(("u%d" % k) if k >= 0 else ("i%d" % k))
+            ks = [rng.randrange(-5, 40) for _ in range(rng.randrange(1, 6))]
+            d["a0"] = [num(k, rng.random() < 0.5) if rng.random() < 0.8 else rs(rng) for k in ks]
+            k = rng.choice(ks) if rng.random() < 0.7 else rng.randrange(41, 60)
+            d["a1"] = num(k, rng.random() < 0.5) if rng.random() < 0.85 else E.Num(G.f64_bits(k + 0.5))
+            if rng.random() < 0.3:
+                d["a1"] = [d["a1"]]
+                d["a0"] = [[x] for x in d["a0"]]
+            return ("call", f, [A0, A1]), d
         if r < 0.12:
             # a string subject searched for something that is not a string (a number, null, an array …): simply not contained
             d["a0"], d["a1"] = rs(rng), rng.choice([rn(rng), None, True, [rs(rng)], {}, []])
